@@ -177,6 +177,12 @@ for _n, _h in (("positions", "c07_skip_roundtrip_positions"), ("freqs", "c07_ski
       functions=["SkipSerializer::{write_doc,write_term_freq,write_total_term_freq,write_blockwand_max}", "SkipReader::{new,read_block_info,advance,seek,block_info,byte_offset,position_offset,remaining_docs}", "compressed_block_size"],
       bounds="all field values symbolic (doc ids < TERMINATED, bit widths < 32 / <= 32), tail 0..127; unwind 6",
       assumes=["seek target <= TERMINATED", "bit widths in the range the block encoder returns"])
+for _opt in ("positions", "basic"):
+    K("C07", "K07-skip-reset-%s" % _opt, "c07_skip_reset_%s" % _opt, timeout=300,
+      title="a SkipReader re-used for another term through reset() is observationally a freshly opened one wherever the previous term's reader had got to (delta-decoding base, byte / position offsets, remaining docs, block info; also after one more advance), record option %s" % _opt,
+      functions=["SkipReader::{reset,new,read_block_info,advance}", "SkipSerializer::{write_doc,write_term_freq,write_total_term_freq,write_blockwand_max}"],
+      bounds="previous list: 2 full blocks + tail, reader advanced 0, 1 or 2 times; next list: one full block + tail 0..127, or a short list (doc_freq < 128); all field values symbolic; unwind 6",
+      assumes=["bit widths in the range the block encoder returns"])
 K("C07", "K07-skip-short", "c07_skip_short_list", timeout=60, title="posting list shorter than a block: no skip data, VInt block info", functions=["SkipReader::{new,seek}"], bounds="doc_freq < 128")
 K("C07", "K07-bitwidth-code", "c07_bitwidth_code", timeout=60, title="encode/decode_bitwidth round trip", functions=["skip::encode_bitwidth", "skip::decode_bitwidth"], bounds="all widths < 32", checks="full")
 K("C07", "K07-search-block", "c07_search_block_lower_bound", timeout=300, title="in-block 8-ary search = lower bound on every sorted 128-array",
@@ -289,6 +295,21 @@ K("C15", "K15-range-slice", "c15_file_slice_for_range_covers_needed_blocks", cra
   functions=["Dictionary::file_slice_for_range", "index::v2::SSTableIndex::{locate_with_key,locate_with_ord,get_block}", "FileSlice::{slice,read_bytes}"],
   bounds="dictionary written down directly: v2 block index of 3 blocks, symbolic 1-byte separator keys, byte ranges and first ordinals; symbolic 1-byte bounds of every kind (lower <= upper), optional limit < 10^6; the file handle records the requested byte range",
   assumes=["non-inverted range (a sorted map panics on an inverted one)"])
+_DELTA_FN = ["DeltaWriter::{write_suffix,encode_keep_add,write_value}", "DeltaReader::{read_delta_key,read_keep_add,advance,common_prefix_len,suffix}", "BlockReader::{buffer,advance,offset,deserialize_u64,buffer_from_to,read_block}", "sstable::vint::{serialize,deserialize_read}"]
+_DELTA_ASSUME = ["the block payload goes from DeltaWriter.block to the reader's BlockReader directly (state right after read_block() of a one-block file; flush_block / read_block framing is not in this obligation)",
+                 "a later key of a block adds at least one byte (strictly increasing keys, K15-order)", "VoidValueWriter / VoidValueReader (values occupy no bytes)"]
+K("C15", "K15-delta-nibble", "c15_delta_roundtrip_nibble", crate="tantivy-sstable", timeout=400, mem=14,
+  title="front-coded block layer, one-byte form: every (keep, add, suffix) entry written into a block comes back unchanged, in order, and the block ends exactly after the last entry",
+  functions=_DELTA_FN, bounds="2 entries; suffix lengths (2, 1); keep of the second entry symbolic in 0..15; symbolic suffix bytes; unwind 5", assumes=_DELTA_ASSUME)
+K("C15", "K15-delta-escape-keep", "c15_delta_roundtrip_escape_keep", crate="tantivy-sstable", tiers="t", timeout=1800, mem=20,
+  title="front-coded block layer, VInt escape taken for keep >= 16 (one-byte VInt): entries come back unchanged; the nibble form is never used for a keep it cannot hold",
+  functions=_DELTA_FN, bounds="2 entries; suffix lengths (0, 2); keep symbolic in 16..127; unwind 11", assumes=_DELTA_ASSUME)
+K("C15", "K15-delta-escape-keep2", "c15_delta_roundtrip_escape_keep2", crate="tantivy-sstable", tiers="t", timeout=1800, mem=24,
+  title="front-coded block layer, VInt escape with a two-byte keep", functions=_DELTA_FN, bounds="2 entries; suffix lengths (0, 2); keep symbolic in 128..16383; unwind 11", assumes=_DELTA_ASSUME)
+K("C15", "K15-delta-nibble-max", "c15_delta_roundtrip_nibble_max", crate="tantivy-sstable", tiers="t", timeout=1800, mem=20,
+  title="front-coded block layer, one-byte form at its upper limit (add = 15)", functions=_DELTA_FN, bounds="2 entries; suffix lengths (15, 15); keep symbolic in 0..15; unwind 18", assumes=_DELTA_ASSUME)
+K("C15", "K15-delta-escape-add", "c15_delta_roundtrip_escape_add", crate="tantivy-sstable", tiers="t", timeout=1800, mem=24,
+  title="front-coded block layer, VInt escape taken for add >= 16", functions=_DELTA_FN, bounds="2 entries; suffix lengths (1, 16); keep symbolic in 0..15; unwind 18", assumes=_DELTA_ASSUME)
 K("C15", "K15-order", "c15_insert_key_enforces_order", crate="tantivy-sstable", timeout=900,
   title="Writer::insert_key never silently accepts a key that is not strictly greater than the previous one",
   functions=["sstable::Writer::{new,insert,insert_key,insert_value}", "DeltaWriter::write_suffix"], bounds="two keys of <= 2 bytes; unwind 6",
